@@ -6,8 +6,6 @@
 package dnsutil
 
 import (
-	"strings"
-
 	"github.com/miekg/dns"
 )
 
@@ -55,7 +53,11 @@ func TrimDomainName(s, origin string) string {
 	}
 	// Someone is using TrimDomainName(s, ".") to remove a dot if it exists.
 	if origin == "." {
-		return strings.TrimSuffix(s, origin)
+		// not strings.TrimSuffix: an escaped final dot belongs to the last label
+		if dns.IsFqdn(s) {
+			return s[:len(s)-1]
+		}
+		return s
 	}
 
 	original := s
